@@ -188,6 +188,7 @@ struct Scenario {
 ///             9 get(id)  10 shutdown  11 subscribe(id) and drop the stream  12 subscribe_query(id) and drop the stream
 ///             13 subscribe_query(id), the subscriber stays and reads lazily (only when nothing else can move, and
 ///                at the end)  14 burst(id, first value): twelve updates of one signal in a row
+///             15 provide(id) by a provider that is already gone (registered, unavailable, not yet cleaned up)
 fn make(spec: &[(Tok, Tok, Tok)], on_change: bool) -> Scenario {
     let b = setup(if on_change { ChangeType::OnChange } else { ChangeType::Continuous });
     // an owner for actuator 2 so that actuate/batch on it can succeed
@@ -290,6 +291,13 @@ fn make(spec: &[(Tok, Tok, Tok)], on_change: bool) -> Scenario {
                     Err(_) => 0,
                 }
             }),
+            15 => {
+                // a provider that is gone already (its stream closed) but still registered until housekeeping runs:
+                // part of the initial state, not of the schedule
+                let dead = Box::new(RecProvider { inbox: Arc::new(Mutex::new(Vec::new())), avail: Arc::new(AtomicBool::new(false)) });
+                let ok = block_on(Box::pin(async { bb.authorized_access(&ALLOW_ALL).provide_actuation(vec![x as i32], dead).await.is_ok() }));
+                Box::pin(async move { 2 * ok as Tok })
+            }
             14 => Box::pin(async move {
                 let a = bb.authorized_access(&ALLOW_ALL);
                 let mut ok = 1;
